@@ -250,6 +250,10 @@ def document(input_file: str, settings: Settings):
                     if filename.endswith(".cmake"):
                         break
                 else:
+                    # Without the recursive flag only the input directory
+                    # itself is documented, never its subdirectories
+                    if not recursive:
+                        break
                     continue
 
             # Sort filenames and subdirs in alphabetical order
